@@ -16,6 +16,9 @@ when its target runs (harness-chosen) and what join / is_alive / terminate say.
    hang                 : it is still alive after join(timeout) -> terminate()
    late                 : it has put its result but has not exited yet when
                           join(timeout) returns (is_alive() is still True)
+   preempt              : like late, but the process got no further than releasing the
+                          result lock after its put when join(timeout) returned (stopped
+                          right there; it never runs again: the dispatcher terminates it)
    spawn_fail           : the outer Process.start() raises OSError
    die                  : the payload ends its process without an exception the
                           dispatcher could catch (here: sys.exit(); stands for a
@@ -39,12 +42,16 @@ from radical.pilot.task_description import (TASK_FUNC, TASK_METH, TASK_EVAL,
                                             TASK_EXEC, TASK_PROC, TASK_SHELL)
 import radical.pilot as rp
 
-OUTCOMES = ['ok', 'raise', 'hang', 'late', 'badmode', 'spawn_fail', 'die']
+OUTCOMES = ['ok', 'raise', 'hang', 'late', 'preempt', 'badmode', 'spawn_fail', 'die']
 MAX_STEPS = 400
 
 
 class _Yield(BaseException):
     """ends one stepped run of the real _result_watcher loop"""
+
+
+class _Preempted(BaseException):
+    """the inner process is stopped for good right after it released the result lock"""
 
 
 class _Stuck(BaseException):
@@ -71,6 +78,7 @@ class Harness(object):
         self.tout     = {}
         self.blocked  = 0        # times _request_cb had to wait for resources
         self.w        = None
+        self.inner_running = None    # the inner fake process whose target runs right now
 
     # -- schedule ----------------------------------------------------------
     def pick(self, n):
@@ -146,7 +154,12 @@ def make_fakes(H):
             assert not self.held, 'harness: fake mp.Lock acquired twice'
             self.held = True
             return True
-        def release(self):      self.held = False
+        def release(self):
+            self.held = False
+            p = H.inner_running
+            if p is not None and p._preempt_armed:
+                p._preempt_armed = False
+                raise _Preempted()
         def __enter__(self):    self.acquire(); return self
         def __exit__(self, *a): self.release()
 
@@ -172,6 +185,7 @@ def make_fakes(H):
             self._alive  = False
             self._ran    = False
             self._uid    = None
+            self._preempt_armed = False
 
         # ---- outer process: one per request, target = DefaultWorker._dispatch
         def start(self):
@@ -213,11 +227,15 @@ def make_fakes(H):
                 return
             self._ran = True
             H.pid_stack.append(self.pid)
+            prev, H.inner_running = H.inner_running, self
             try:
                 self._target(*self._args, **self._kwargs)
             except SystemExit as e:
                 self.exitcode = e.code
+            except _Preempted:
+                pass
             finally:
+                H.inner_running = prev
                 H.pid_stack.pop()
 
         # ---- what the parent can observe
@@ -232,6 +250,10 @@ def make_fakes(H):
                 return                      # still running when the timeout expires
             if oc == 'late' and tout:
                 self._run_inner()           # result is out, process not yet gone
+                return
+            if oc == 'preempt' and tout:
+                self._preempt_armed = True  # result is out, lock released, nothing more
+                self._run_inner()
                 return
             self._run_inner()
             self._alive = False
@@ -535,7 +557,7 @@ def run_worker_case(case):
 
     ocs = set(H.outcome[u] for u in accepted)
     res.nontrivial = (stats['max_par'] >= 2
-                      and bool(ocs & {'raise', 'hang', 'late', 'badmode', 'spawn_fail', 'die'}))
+                      and bool(ocs & {'raise', 'hang', 'late', 'preempt', 'badmode', 'spawn_fail', 'die'}))
     res.label('worker:cores=%d' % n_cores, 'worker:gpus=%d' % n_gpus,
               'worker:max_parallel=%d' % min(stats['max_par'], 4),
               'worker:requests=%s' % ('1-3' if len(reqs) <= 3 else '4-8' if len(reqs) <= 8 else '9+'))
